@@ -9,9 +9,7 @@ Theorems about the model `Andes/Model/Config.lean` (tied to the real code by `ha
 * `precedence_config` — for EVERY field, dictionary, rc object and default list: the value in effect is the
   dictionary's, else the rc object's, else the default's (each passed through `_set`);
 * `options_beat_file` — in the rc object a section's key holds the LAST option naming it, else the file's text;
-  `options_effective_partial` — options take effect when every named section exists in the loaded rc
-  (the real code fails otherwise: `option_for_section_absent_from_rc_raises`,
-  `two_options_one_section_without_rc_raise`);
+  `options_effective` — EVERY list of well-formed options takes effect, with any rc object or none;
 * `malformed_option_rejected` — wrong `=` / `.` count anywhere in the list is an error
   (`empty_section_option_accepted` : `.x=1` is NOT rejected and lands in DEFAULT);
 * `alt_rejected` — a constructed config has every public field inside its tuple/set `_alt`;
@@ -156,14 +154,18 @@ def optValue (sec key : String) : List String → Option String
       | .ok (s, k, v) => if s = sec ∧ lower k = key then some v else none
       | .error _ => none
 
-theorem own_after_step {newobj : Bool} {rc rc1 rc2 : Rc} {s k v : String}
-    (ha : (if newobj then rc.addSection s else .ok rc) = .ok rc1) (hs2 : rc1.setOpt s k v = .ok rc2)
+theorem own_ensureSection {rc rc1 : Rc} {s : String} (ha : rc.ensureSection s = .ok rc1) (sec : String) :
+    rc1.own sec = rc.own sec := by
+  unfold Rc.ensureSection at ha
+  split at ha
+  · injection ha with ha; rw [ha]
+  · exact Rc.own_addSection ha sec
+
+theorem own_after_step {rc rc1 rc2 : Rc} {s k v : String}
+    (ha : rc.ensureSection s = .ok rc1) (hs2 : rc1.setOpt s k v = .ok rc2)
     (sec key : String) (hs : isDefaultName sec = false) :
     aget key (rc2.own sec) = if s = sec ∧ lower k = key then some v else aget key (rc.own sec) := by
-  have h1 : rc1.own sec = rc.own sec := by
-    cases newobj with
-    | false => simp only [Bool.false_eq_true, if_false] at ha; injection ha with ha; rw [ha]
-    | true => simp only [if_true] at ha; exact Rc.own_addSection ha sec
+  have h1 : rc1.own sec = rc.own sec := own_ensureSection ha sec
   cases hd : isDefaultName s with
   | true =>
     rw [Rc.own_setOpt_default hs2 hd, h1]
@@ -183,8 +185,8 @@ theorem own_after_step {newobj : Bool} {rc rc1 rc2 : Rc} {s k v : String}
 
 /-- **options beat the file** (all option lists, with or without a loaded rc): after `_update_config_object`
 succeeded, a section's key holds the last option naming it; keys no option names keep the file's text. -/
-theorem options_beat_file {newobj : Bool} {rc rc' : Rc} {items : List String}
-    (h : applyOpts newobj rc items = .ok rc') (sec key : String) (hs : isDefaultName sec = false) :
+theorem options_beat_file {rc rc' : Rc} {items : List String}
+    (h : applyOpts rc items = .ok rc') (sec key : String) (hs : isDefaultName sec = false) :
     aget key (rc'.own sec) =
       match optValue sec key items with
       | some v => some v
@@ -202,7 +204,7 @@ theorem options_beat_file {newobj : Bool} {rc rc' : Rc} {items : List String}
     | ok t =>
       obtain ⟨s, k, v⟩ := t
       simp only [hp] at h
-      cases ha : (if newobj then rc.addSection s else .ok rc) with
+      cases ha : rc.ensureSection s with
       | error e => simp [ha] at h
       | ok rc1 =>
         simp only [ha] at h
@@ -234,57 +236,79 @@ theorem sects_has_setOpt {rc rc' : Rc} {sec key val : String} (h : rc.setOpt sec
       · simp [hss]
     · cases h
 
-/-- with a loaded rc object, options succeed when each is well formed and names a section of the rc object
-(or DEFAULT).  `_partial`: the statement of C20 wants EVERY well-formed option to take effect; the real code
-raises NoSectionError for a section absent from the rc file, and DuplicateSectionError for a second option
-on one section when no rc file was loaded — see the two counterexamples below. -/
-theorem options_effective_partial (rc : Rc) (items : List String)
-    (hw : ∀ item ∈ items, ∃ s k v, parseOpt item = .ok (s, k, v) ∧ (isDefaultName s = true ∨ ahas s rc.sects = true)) :
-    ∃ rc', applyOpts false rc items = .ok rc' := by
+theorem ensureSection_ok (rc : Rc) (s : String) :
+    ∃ rc1, rc.ensureSection s = .ok rc1 ∧ (isDefaultName s = false → (aget s rc1.sects).isSome = true) := by
+  unfold Rc.ensureSection
+  by_cases hD : s = "DEFAULT"
+  · exact ⟨rc, by simp [hD], by intro h; simp [isDefaultName, hD] at h⟩
+  · by_cases hh : ahas s rc.sects = true
+    · exact ⟨rc, by simp [hD, hh], by intro _; rw [← ahas_eq]; exact hh⟩
+    · refine ⟨{ rc with sects := rc.sects ++ [(s, [])] }, by simp [hD, hh, Rc.addSection], ?_⟩
+      intro _
+      have hn : aget s rc.sects = none := by
+        rw [ahas_eq] at hh
+        cases hg : aget s rc.sects with
+        | none => rfl
+        | some x => simp [hg] at hh
+      simp [aget_append, hn, aget_cons]
+
+/-- **every well-formed option takes effect**: `_update_config_object` succeeds on every list of well-formed
+options, with or without a loaded rc object, whatever sections the rc file has (full strength since the repair
+of `_update_config_object`; on the pinned tree an option for a section absent from the rc file raised
+`NoSectionError`, and two options for one section without an rc file raised `DuplicateSectionError`:
+`known_findings.json`, `option-nosection-when-rc-lacks-section`, `option-dupsection-without-rc`, fixed). -/
+theorem options_effective (rc : Rc) (items : List String)
+    (hw : ∀ item ∈ items, ∃ s k v, parseOpt item = .ok (s, k, v)) :
+    ∃ rc', applyOpts rc items = .ok rc' := by
   induction items generalizing rc with
   | nil => exact ⟨rc, rfl⟩
   | cons item rest ih =>
-    obtain ⟨s, k, v, hp, hsec⟩ := hw item (List.mem_cons_self ..)
-    have hset : ∃ rc2, rc.setOpt s k v = .ok rc2 := by
+    obtain ⟨s, k, v, hp⟩ := hw item (List.mem_cons_self ..)
+    obtain ⟨rc1, h1, hsome⟩ := ensureSection_ok rc s
+    have hset : ∃ rc2, rc1.setOpt s k v = .ok rc2 := by
       cases hd : isDefaultName s with
-      | true => exact ⟨{ rc with defaults := aset (lower k) v rc.defaults }, by unfold Rc.setOpt; simp [hd]⟩
+      | true => exact ⟨{ rc1 with defaults := aset (lower k) v rc1.defaults }, by unfold Rc.setOpt; simp [hd]⟩
       | false =>
-        have hh : ahas s rc.sects = true := by
-          cases hsec with
-          | inl h => rw [hd] at h; cases h
-          | inr h => exact h
-        rw [ahas_eq] at hh
-        cases hg : aget s rc.sects with
+        have hh := hsome hd
+        cases hg : aget s rc1.sects with
         | none => simp [hg] at hh
         | some own =>
-          exact ⟨{ rc with sects := aset s (aset (lower k) v own) rc.sects }, by unfold Rc.setOpt; simp [hd, hg]⟩
+          exact ⟨{ rc1 with sects := aset s (aset (lower k) v own) rc1.sects }, by unfold Rc.setOpt; simp [hd, hg]⟩
     obtain ⟨rc2, h2⟩ := hset
-    have hw' : ∀ item ∈ rest, ∃ s k v, parseOpt item = .ok (s, k, v) ∧
-        (isDefaultName s = true ∨ ahas s rc2.sects = true) := by
-      intro it hit
-      obtain ⟨s', k', v', hp', hsec'⟩ := hw it (List.mem_cons_of_mem _ hit)
-      exact ⟨s', k', v', hp', by rw [sects_has_setOpt h2]; exact hsec'⟩
-    obtain ⟨rc', h'⟩ := ih rc2 hw'
-    exact ⟨rc', by simp only [applyOpts, hp, Bool.false_eq_true, if_false, h2, h']⟩
+    obtain ⟨rc', h'⟩ := ih rc2 (fun it hit => hw it (List.mem_cons_of_mem _ hit))
+    exact ⟨rc', by simp only [applyOpts, hp, h1, h2, h']⟩
+
+/-- the statement through `_update_config_object` itself: no rc object, or any rc object -/
+theorem options_effective_update (rc : Option Rc) (items : List String)
+    (hw : ∀ item ∈ items, ∃ s k v, parseOpt item = .ok (s, k, v)) :
+    ∃ r, updateRc rc (some items) = .ok r := by
+  unfold updateRc
+  cases items with
+  | nil => exact ⟨rc, rfl⟩
+  | cons a b =>
+    cases rc with
+    | some r0 => obtain ⟨r, hr⟩ := options_effective r0 (a :: b) hw; exact ⟨some r, by simp [hr, Except.map]⟩
+    | none => obtain ⟨r, hr⟩ := options_effective Rc.empty (a :: b) hw; exact ⟨some r, by simp [hr, Except.map]⟩
 
 def errOf {ε α : Type} : Except ε α → Option ε
   | .error e => some e
   | .ok _ => none
 
-/-- non-vacuity of `options_effective_partial` and of `options_beat_file`: option > file on a concrete rc -/
+/-- non-vacuity of `options_effective` and of `options_beat_file`: option > file on a concrete rc -/
 example :
-    (applyOpts false ⟨[], [("TDS", [("tf", "20"), ("tstep", "0.1")])]⟩ ["TDS.tf=3.5", "TDS.TF = 4 "]).toOption.map
+    (applyOpts ⟨[], [("TDS", [("tf", "20"), ("tstep", "0.1")])]⟩ ["TDS.tf=3.5", "TDS.TF = 4 "]).toOption.map
       (fun r => r.own "TDS") = some [("tf", "4"), ("tstep", "0.1")] := by decide +kernel
 
-/-- DEFECT (real code, reproduced by the model): a well-formed option for a section the loaded rc file does
-not contain raises `configparser.NoSectionError` instead of taking effect -/
-theorem option_for_section_absent_from_rc_raises :
-    errOf (updateRc (some ⟨[], [("System", [("mva", "100")])]⟩) (some ["GENCLS.allow_adjust=0"]))
-      = some Err.noSection := by decide +kernel
+/-- the two inputs that raised on the pinned tree now take effect: an option for a section the loaded rc file
+does not contain, and two options for one section without an rc file -/
+theorem option_for_section_absent_from_rc_takes_effect :
+    (updateRc (some ⟨[], [("System", [("mva", "100")])]⟩) (some ["GENCLS.allow_adjust=0"])).toOption.map
+      (fun r => r.map (fun r => (r.own "GENCLS", r.own "System")))
+      = some (some ([("allow_adjust", "0")], [("mva", "100")])) := by decide +kernel
 
-/-- DEFECT: without an rc file, two well-formed options for one section raise `DuplicateSectionError` -/
-theorem two_options_one_section_without_rc_raise :
-    errOf (updateRc none (some ["TDS.tf=3.5", "TDS.tstep=0.02"])) = some Err.dupSection := by decide +kernel
+theorem two_options_one_section_without_rc_take_effect :
+    (updateRc none (some ["TDS.tf=3.5", "TDS.tstep=0.02"])).toOption.map (fun r => r.map (fun r => r.own "TDS"))
+      = some (some [("tf", "3.5"), ("tstep", "0.02")]) := by decide +kernel
 
 /-! ## 4. malformed options -/
 
@@ -301,9 +325,9 @@ theorem parseOpt_malformed (item : String)
 /-- **malformed options are rejected**: an option whose `=` count is not 1, or whose left-hand side does not
 contain exactly one `.`, makes `_update_config_object` raise wherever it stands in the list (an earlier
 option may raise first; no rc object is ever returned) -/
-theorem malformed_option_rejected (newobj : Bool) (rc : Rc) (pre post : List String) (item : String)
+theorem malformed_option_rejected (rc : Rc) (pre post : List String) (item : String)
     (h : countC '=' item ≠ 1 ∨ countC '.' (split1 '=' item).1 ≠ 1) :
-    ∃ e, applyOpts newobj rc (pre ++ item :: post) = .error e := by
+    ∃ e, applyOpts rc (pre ++ item :: post) = .error e := by
   obtain ⟨e0, he0⟩ := parseOpt_malformed item h
   induction pre generalizing rc with
   | nil => exact ⟨e0, by simp [applyOpts, he0]⟩
@@ -314,7 +338,7 @@ theorem malformed_option_rejected (newobj : Bool) (rc : Rc) (pre post : List Str
     | ok t =>
       obtain ⟨s, k, v⟩ := t
       simp only
-      cases (if newobj then rc.addSection s else .ok rc) with
+      cases rc.ensureSection s with
       | error e => exact ⟨e, rfl⟩
       | ok rc1 =>
         simp only
@@ -334,10 +358,10 @@ theorem malformed_option_no_system (N : Numerals F) (decls : List (Decl F)) (dic
     rw [← hl]
     cases rc with
     | some r =>
-      obtain ⟨e, he⟩ := malformed_option_rejected false r pre post item h
+      obtain ⟨e, he⟩ := malformed_option_rejected r pre post item h
       exact ⟨(e, ""), by simp [he, Except.map]⟩
     | none =>
-      obtain ⟨e, he⟩ := malformed_option_rejected true Rc.empty pre post item h
+      obtain ⟨e, he⟩ := malformed_option_rejected Rc.empty pre post item h
       exact ⟨(e, ""), by simp [he, Except.map]⟩
 
 example : countC '=' "TDS.tf==3" ≠ 1 ∨ countC '.' (split1 '=' "TDS.tf==3").1 ≠ 1 := by decide +kernel
@@ -346,7 +370,7 @@ example : countC '=' "TDStf=3" ≠ 1 ∨ countC '.' (split1 '=' "TDStf=3").1 ≠
 /-- OBSERVATION (real code): an option with an EMPTY section name passes the two counts; it is accepted and
 lands in the parser-wide DEFAULT section, i.e. in every section the rc file has -/
 theorem empty_section_option_accepted :
-    (applyOpts false ⟨[], [("System", []), ("TDS", [])]⟩ [".x=1"]).toOption.map
+    (applyOpts ⟨[], [("System", []), ("TDS", [])]⟩ [".x=1"]).toOption.map
       (fun r => (r.lookup "System" "x", r.lookup "TDS" "x")) = some (some "1", some "1") := by decide +kernel
 
 /-! ## 5. alternatives -/
